@@ -112,10 +112,10 @@ def check_C06(ctx):
     ips = '"a4", "b4", "c6"'
     # 1. design-level: mechanism vs. history statement, exhaustive
     res = vlib.tlc("mc/MC_Token.tla", ctx.cfg("mc.cfg", TOKEN_CFG % dict(
-        ips=ips, deltas=TOKEN_DELTAS, steps=5 if q else 7, keep="TRUE", gen="FALSE", emit="")),
+        ips=ips, deltas=TOKEN_DELTAS, steps=5 if q else 6, keep="TRUE", gen="FALSE", emit="")),
         workers=8 if q else 16, timeout=600 if q else 3000, heap="8g" if q else "24g")
     vlib.require_mc_ok(res, "MC_Token")
-    ctx.add_mc("MC_Token(steps=%d)" % (5 if q else 7), res)
+    ctx.add_mc("MC_Token(steps=%d)" % (5 if q else 6), res)
     # 2. vacuity guard: a mechanism that forgets the previous secret must be caught
     neg = vlib.tlc("mc/MC_Token.tla", ctx.cfg("neg.cfg", TOKEN_CFG % dict(
         ips=ips, deltas=TOKEN_DELTAS, steps=5, keep="FALSE", gen="FALSE", emit="")), workers=4, timeout=600)
@@ -123,13 +123,13 @@ def check_C06(ctx):
     # 3. binding: behaviours of the model replayed against the real TokenStore
     beh = ctx.path("behaviours.ndjson")
     g1 = vlib.tlc("mc/MC_Token.tla", ctx.cfg("gen1.cfg", TOKEN_CFG % dict(
-        ips=ips, deltas=TOKEN_DELTAS, steps=3 if q else 4, keep="TRUE", gen="TRUE", emit="INVARIANT Emit")),
+        ips=ips, deltas=TOKEN_DELTAS, steps=3, keep="TRUE", gen="TRUE", emit="INVARIANT Emit")),
         workers=1, timeout=1200)
     n1 = vlib.extract_replays(g1, beh + ".1")
     depth = 30 if q else 60
     g2 = vlib.tlc("mc/MC_Token.tla", ctx.cfg("gen2.cfg", TOKEN_CFG % dict(
         ips=ips, deltas=TOKEN_DELTAS + ", 30000, 300000", steps=depth, keep="TRUE", gen="TRUE", emit="INVARIANT Emit")),
-        workers=1, timeout=1200, simulate=40 if q else 400, depth=depth + 1, seed_=vlib.seed())
+        workers=1, timeout=1200, simulate=40 if q else 200, depth=depth + 1, seed_=vlib.seed())
     n2 = vlib.extract_replays(g2, beh + ".2")
     with open(beh, "w") as f:
         for p in (beh + ".1", beh + ".2"):
@@ -138,14 +138,14 @@ def check_C06(ctx):
         raise ToolError("behaviour generation produced nothing (%d, %d)" % (n1, n2))
     trace = ctx.path("trace.ndjson")
     vlib.vh(["tokens", "--in", beh, "--out", trace])
-    tv = vlib.validate_trace("trace/TokenTrace.tla", "trace/TokenTrace.cfg", trace, timeout=1800, heap="8g")
+    tv = vlib.validate_trace_parallel("trace/TokenTrace.tla", "trace/TokenTrace.cfg", trace, nparts=4 if q else 12, timeout=1800)
     total, distinct = vlib.count_distinct_behaviours(beh)
     nontrivial = sum(1 for line in open(beh) if '"ann"' in line and '"get"' in line)
     ctx.add_tv("tokens", tv, total, min(distinct, nontrivial))
     ctx.cov["rule"] = ("behaviours = all operation sequences of the TLA+ model MC_Token up to depth %d "
                        "(exhaustive) plus %d simulated ones of depth %d; distinct by content hash; "
                        "non-trivial = contains at least one get_peers and one announce"
-                       % (3 if q else 4, n2, depth))
+                       % (3, n2, depth))
     ctx.cov["samples"] = vlib.head_lines(beh + ".2", 2) + vlib.head_lines(trace, 4)
     ctx.cov["exhaustive"] = False
     if tv.drifts:
@@ -229,7 +229,7 @@ def check_C07(ctx):
     beh = ctx.path("behaviours.ndjson")
     g1 = vlib.tlc("mc/MC_PeerStore.tla", ctx.cfg("gen1.cfg", PEER_CFG % dict(
         cap=3, addrs='"a4:1", "b4:1", "c6:1"', deltas="43200000, 86399999, 86400000, 86400001", fills="",
-        steps=4 if q else 5, gen="TRUE", moves="TRUE", invs="INVARIANT Emit")), workers=1, timeout=1800)
+        steps=4, gen="TRUE", moves="TRUE", invs="INVARIANT Emit")), workers=1, timeout=1800)
     n1 = vlib.extract_replays(g1, beh + ".1")
     # binding 2: production capacity -- seeded random bulk behaviours over the same operation alphabet
     # (fill / renew / add / find / adv) crossing the 500-pair limit and the 24 h boundary over several days.
@@ -256,7 +256,7 @@ def check_C07(ctx):
     ctx.add_tv("peers", tv, total, min(distinct, nontrivial))
     ctx.cov["rule"] = ("behaviours = all operation sequences of MC_PeerStore (CAP=3 alphabet) up to depth %d replayed on the "
                        "real 500-pair store, plus %d seeded random behaviours with bulk fill/renew steps crossing the 500 "
-                       "limit and the 24 h boundary; non-trivial = at least one add/fill and one find" % (4 if q else 5, n2))
+                       "limit and the 24 h boundary; non-trivial = at least one add/fill and one find" % (4, n2))
     ctx.cov["samples"] = vlib.head_lines(beh + ".2", 1, 900) + vlib.head_lines(trace, 5)
     if tv.drifts:
         log("DRIFT (mechanism differs from PeerStore.tla, no property involved): %d reports, first: %s"
@@ -519,7 +519,7 @@ def check_C19(ctx):
     vlib.require_mc_ok(res, "MC_Txn")
     ctx.add_mc("MC_Txn(BLOCK=2,MMAX=8,AMAX=4)", res)
     if not q:
-        res2 = vlib.tlc("mc/MC_Txn.tla", ctx.cfg("mc4.cfg", TXN_CFG % dict(block=4, mmax=8, amax=8, draws=11, inv="Inv")),
+        res2 = vlib.tlc("mc/MC_Txn.tla", ctx.cfg("mc4.cfg", TXN_CFG % dict(block=4, mmax=8, amax=8, draws=9, inv="Inv")),
                         workers=16, timeout=2400, heap="16g")
         vlib.require_mc_ok(res2, "MC_Txn(BLOCK=4)")
         ctx.add_mc("MC_Txn(BLOCK=4,MMAX=8,AMAX=8)", res2)
@@ -1046,8 +1046,8 @@ def maintenance_mc(ctx):
     for reboot in ("TRUE", "FALSE"):
         for rtt in (2, 1998):
             r = vlib.tlc("mc/MC_Maintenance.tla", ctx.cfg("mcmaint-%s-%d.cfg" % (reboot, rtt), MAINT_MC_CFG % dict(
-                contacts="1, 2, 3" if q else "1, 2, 3, 4, 5", rtt=rtt, reboot=reboot, horizon=2400000 if q else 7200000,
-                more="" if q else ", 3600000", again="FALSE")), workers=4 if q else 8, timeout=1500 if q else 3400, heap="6g")
+                contacts="1, 2, 3" if q else "1, 2, 3, 4", rtt=rtt, reboot=reboot, horizon=2400000 if q else 3600000,
+                more="", again="FALSE")), workers=4 if q else 16, timeout=1500 if q else 3400, heap="6g")
             vlib.require_mc_ok(r, "MC_Maintenance")
             ctx.add_mc("MC_Maintenance(re-bootstrap=%s, RTT=%d ms)" % (reboot, rtt), r)
     neg = vlib.tlc("mc/MC_Maintenance.tla", ctx.cfg("mcmaint-neg.cfg", MAINT_MC_CFG % dict(
@@ -1189,7 +1189,7 @@ def check_C01(ctx):
     sc = [("e2e-n%d-s%d" % (n, s), ["--scenario", "e2e", "--n", str(n), "--seed", str(s0 + s)])
           for n, s in ([(2, 0), (3, 1), (4, 2), (5, 3), (9, 4)] if q else [(n, s) for n in range(2, 10) for s in range(0, 4)])]
     sc += [("e2e-long-n%d-s%d" % (n, s), ["--scenario", "e2e", "--n", str(n), "--long", "1", "--seed", str(s0 + s)])
-           for n, s in ([(2, 5), (3, 8 - (s0 % 2))] if q else [(2, 5), (3, 6), (4, 7), (2, 8), (3, 10), (5, 12)])]
+           for n, s in ([(2, 5), (3, 8 - (s0 % 2))] if q else [(2, 5), (3, 6), (4, 7), (2, 8 - (s0 % 2)), (3, 10 - (s0 % 2)), (4, 12 - (s0 % 2))])]
     generic_node_check(ctx, sc, ["C01"], "e2e",
                        "2..9 real serving nodes that all know each other (IPv4 / IPv6, random and adversarially clustered ids, announce port set "
                        "or not, per-datagram latency uniform below 1 s): announcing searches and searches by every other node in random order, "
